@@ -54,7 +54,8 @@ def default_layout(encoding):
     return {"gap4a": 40, "sync": 12, "gap2": 22, "gap3": 16, "index_mark": False}
 
 
-def fm_track(track, side, sectors, order=None, layout=None, track_bytes=3125, head_id=None, fieldmap=None):
+def fm_track(track, side, sectors, order=None, layout=None, track_bytes=3125, head_id=None, fieldmap=None,
+             size_code=1):
     """sectors: list of 256-byte blobs indexed by logical sector number."""
     lay = dict(default_layout("FM"))
     if layout:
@@ -79,7 +80,7 @@ def fm_track(track, side, sectors, order=None, layout=None, track_bytes=3125, he
             put(0x00)
         idpos = len(cells)
         put(0xFE, 0xC7)
-        idf = bytes([track, head, sec, 1])
+        idf = bytes([track, head, sec, size_code])
         crc = crc16_ccitt(bytes([0xFE]) + idf)
         for b in idf:
             put(b)
@@ -108,7 +109,8 @@ def fm_track(track, side, sectors, order=None, layout=None, track_bytes=3125, he
     return cells
 
 
-def mfm_track(track, side, sectors, order=None, layout=None, track_bytes=6250, head_id=None, fieldmap=None):
+def mfm_track(track, side, sectors, order=None, layout=None, track_bytes=6250, head_id=None, fieldmap=None,
+              size_code=1):
     lay = dict(default_layout("MFM"))
     if layout:
         lay.update(layout)
@@ -135,7 +137,7 @@ def mfm_track(track, side, sectors, order=None, layout=None, track_bytes=6250, h
         idpos = len(w.cells)
         for _ in range(3):
             w.raw16(0x4489, 1)      # A1 with missing clock
-        idf = bytes([0xFE, track, head, sec, 1])
+        idf = bytes([0xFE, track, head, sec, size_code])
         crc = crc16_ccitt(b"\xA1\xA1\xA1" + idf)
         w.bytes(idf)
         w.byte(crc >> 8)
